@@ -26,6 +26,11 @@ class Contract:
         self.modifies = ()
         self.opaque = True
         self.result_kind = None
+        self.doc_view = None
+        self.induction = ()
+        self.theorems = ()
+        self.as_function = False
+        self.reveal_in = ()
         self.invariants = {}     # ordinal -> (inv FunctionDef, var FunctionDef or None)
         self.reveal = ()
         self.tactics = {}
@@ -131,12 +136,12 @@ def load_contracts(index, only_props=None):
                 elif isinstance(st, ast.Assign) and isinstance(st.targets[0], ast.Name):
                     n = st.targets[0].id
                     if n not in ('raises', 'modifies', 'reveal', 'nullable', 'lemmas', 'opaque', 'result_kind', 'tactics',
-                                 'lemma', 'no_functional', 'kinds'):
+                                 'lemma', 'no_functional', 'kinds', 'doc_view', 'induction', 'as_function', 'reveal_in', 'theorems'):
                         continue        # native-only attributes (input generators of the bounded stand-in)
                     val = _const_eval(st.value, NSL)
-                    if n in ('raises', 'modifies', 'reveal', 'nullable', 'lemmas'):
+                    if n in ('raises', 'modifies', 'reveal', 'nullable', 'lemmas', 'induction', 'reveal_in', 'theorems'):
                         setattr(c, n, tuple(val) if not isinstance(val, str) else (val,))
-                    elif n in ('opaque', 'result_kind', 'tactics', 'lemma', 'no_functional', 'kinds'):
+                    elif n in ('opaque', 'result_kind', 'tactics', 'lemma', 'no_functional', 'kinds', 'doc_view', 'as_function'):
                         setattr(c, n, val)
             if not c.no_functional:
                 for n, st in c.posts:
